@@ -3,6 +3,7 @@ package main
 import (
 	"fmt"
 	"go/ast"
+	"go/constant"
 	"go/token"
 	"go/types"
 	"sort"
@@ -33,6 +34,8 @@ type c09State struct {
 	locked   bool // the mutex is held on every path reaching here
 	mayHold  bool // the mutex may be held (some path took it and has not released it)
 	nilArm   bool // on this path the channel is known closed or uninitialised (flag true / alias nil)
+	uninit   bool // on this path the channel is known never to have been built (nil chan / zero state)
+	mayNil   bool // some path joined here observed the channel closed or never built
 }
 
 func c09Run(r *Run) {
@@ -549,6 +552,7 @@ func c09Run(r *Run) {
 		sends   int
 		checked bool
 		nilArm  bool
+		mayNil  bool
 	}
 	type opRec struct {
 		pos     token.Pos
@@ -570,7 +574,8 @@ func c09Run(r *Run) {
 			return true
 		})
 	}
-	var leaks []token.Pos // exits reached with the mutex possibly held and no deferred unlock
+	okUninit := map[types.Object]bool{} // ok results of helpers whose every failing exit means "never built"
+	var leaks []token.Pos               // exits reached with the mutex possibly held and no deferred unlock
 	deferredUnlock := func(fd *ast.FuncDecl) bool {
 		found := false
 		ast.Inspect(fd.Body, func(n ast.Node) bool {
@@ -608,7 +613,54 @@ func c09Run(r *Run) {
 	}
 	analyse := func(fd *ast.FuncDecl) ([]exitRec, []opRec, []token.Pos) {
 		calleeExits := map[*ast.CallExpr][]calleeExit{}
+		okCall := map[types.Object]*ast.CallExpr{} // ok of `x, ok := helper(…)` → the expanded call
+		boolConst := map[types.Object]bool{}       // bool parameters bound to a literal at the call being expanded
 		depthNow := 0
+		// refine: the state after a helper call, restricted to the helper's exits that answered `truth`
+		refine := func(s *c09State, call *ast.CallExpr, truth bool, counts bool) {
+			outs, ok := calleeExits[call]
+			if !ok {
+				return
+			}
+			want := "false"
+			if truth {
+				want = "true"
+			}
+			first := true
+			var j c09State
+			for _, o := range outs {
+				if o.result != want {
+					if o.result != "true" && o.result != "false" {
+						return // the helper's answer is not a literal on some exit: no refinement
+					}
+					continue
+				}
+				if first {
+					j, first = o.st, false
+				} else {
+					y := o.st
+					if y.sends > j.sends {
+						j.sends = y.sends
+					}
+					if y.sendsMin < j.sendsMin {
+						j.sendsMin = y.sendsMin
+					}
+					j.closedOK = j.closedOK && y.closedOK
+					j.locked = j.locked && y.locked
+					j.mayHold = j.mayHold || y.mayHold
+					j.nilArm = j.nilArm && y.nilArm
+					j.uninit = j.uninit && y.uninit
+					j.mayNil = j.mayNil || y.mayNil
+				}
+			}
+			if first {
+				return
+			}
+			s.closedOK, s.nilArm, s.uninit, s.mayNil = j.closedOK, j.nilArm, j.uninit, j.mayNil
+			if counts {
+				s.sends, s.sendsMin = j.sends, j.sendsMin
+			}
+		}
 		var exits []exitRec
 		var ops []opRec
 		var flagAccess []token.Pos // unsynchronised accesses of the closed flag
@@ -627,24 +679,46 @@ func c09Run(r *Run) {
 			n.locked = x.locked && y.locked
 			n.mayHold = x.mayHold || y.mayHold
 			n.nilArm = x.nilArm && y.nilArm
+			n.uninit = x.uninit && y.uninit
+			n.mayNil = x.mayNil || y.mayNil
 			return &n
 		}
 		h.Equal = func(a, b State) bool { return *a.(*c09State) == *b.(*c09State) }
 		h.Cond = func(e ast.Expr, truth bool, st State) State {
 			s := st.(*c09State)
+			if id, ok := ast.Unparen(e).(*ast.Ident); ok {
+				if v, known := boolConst[info.Uses[id]]; known && v != truth {
+					return nil // this outcome cannot happen for the literal argument of the call being expanded
+				}
+				if call := okCall[info.Uses[id]]; call != nil {
+					refine(s, call, truth, false)
+				}
+			}
+			if call, ok := ast.Unparen(e).(*ast.CallExpr); ok {
+				refine(s, call, truth, true)
+			}
+			if truth && uninitTest(e) {
+				s.uninit = true
+				s.nilArm = true
+				s.mayNil = true
+			}
 			switch stateTest(e, truth) {
 			case +1:
 				s.closedOK = true
+				s.mayNil = false
 			case -1:
 				if fieldOf(e) != nil || fPhase != nil {
 					s.nilArm = true
+					s.mayNil = true
 				}
 			}
 			if isClosedNilTest(e, truth) {
 				s.closedOK = true // the helper that produced the alias answers nil for a closed channel
+				s.mayNil = false
 			}
 			if isClosedNilTest(e, !truth) {
 				s.nilArm = true
+				s.mayNil = true
 			}
 			return s
 		}
@@ -706,6 +780,10 @@ func c09Run(r *Run) {
 									}
 									if lit, ok := ast.Unparen(a).(*ast.FuncLit); ok {
 										litOf[p] = lit
+									}
+									if tv, ok := info.Types[a]; ok && tv.Value != nil && tv.Value.Kind() == constant.Bool {
+										boolConst[p] = constant.BoolVal(tv.Value)
+										defer delete(boolConst, p)
 									}
 								}
 								k++
@@ -785,6 +863,34 @@ func c09Run(r *Run) {
 				ops = append(ops, opRec{snd.Pos(), "send", s.closedOK, s.locked})
 			}
 			if as, ok := stm.(*ast.AssignStmt); ok {
+				if len(as.Rhs) == 1 && len(as.Lhs) >= 2 {
+					if call, ok := ast.Unparen(as.Rhs[0]).(*ast.CallExpr); ok {
+						if _, expanded := calleeExits[call]; expanded {
+							if id, ok := as.Lhs[len(as.Lhs)-1].(*ast.Ident); ok && id.Name != "_" {
+								o := info.Defs[id]
+								if o == nil {
+									o = info.Uses[id]
+								}
+								if o != nil {
+									okCall[o] = call
+									// `!ok` is a never-built test when every failing exit of the helper is one
+									allUninit, n := true, 0
+									for _, ex := range calleeExits[call] {
+										if ex.result == "false" {
+											n++
+											if !ex.st.uninit {
+												allUninit = false
+											}
+										}
+									}
+									if n > 0 && allUninit {
+										okUninit[o] = true
+									}
+								}
+							}
+						}
+					}
+				}
 				for i, l := range as.Lhs {
 					if fClosed != nil && fieldOf(l) == fClosed {
 						// clearing the flag invalidates the observation; setting it is part of the protocol
@@ -810,7 +916,7 @@ func c09Run(r *Run) {
 				if c, ok := ast.Unparen(rs.Results[len(rs.Results)-1]).(*ast.CallExpr); ok {
 					if outs, ok := calleeExits[c]; ok {
 						for _, o := range outs {
-							exits = append(exits, exitRec{rs.Pos(), o.result, o.st.sendsMin, o.st.sends, o.st.closedOK, o.st.nilArm})
+							exits = append(exits, exitRec{rs.Pos(), o.result, o.st.sendsMin, o.st.sends, o.st.closedOK, o.st.nilArm, o.st.mayNil})
 						}
 						expanded = true
 					}
@@ -818,7 +924,7 @@ func c09Run(r *Run) {
 					if c, ok := ast.Unparen(rs.Results[0]).(*ast.CallExpr); ok {
 						if outs, ok := calleeExits[c]; ok {
 							for _, o := range outs {
-								exits = append(exits, exitRec{rs.Pos(), o.result, o.st.sendsMin, o.st.sends, o.st.closedOK, o.st.nilArm})
+								exits = append(exits, exitRec{rs.Pos(), o.result, o.st.sendsMin, o.st.sends, o.st.closedOK, o.st.nilArm, o.st.mayNil})
 							}
 							expanded = true
 						}
@@ -826,7 +932,7 @@ func c09Run(r *Run) {
 				}
 			}
 			if !expanded {
-				exits = append(exits, exitRec{rs.Pos(), res, s.sendsMin, s.sends, s.closedOK, s.nilArm})
+				exits = append(exits, exitRec{rs.Pos(), res, s.sendsMin, s.sends, s.closedOK, s.nilArm, s.mayNil})
 			}
 			if s.mayHold && !deferredUnlock(fd) {
 				leaks = append(leaks, rs.Pos())
@@ -834,12 +940,12 @@ func c09Run(r *Run) {
 		}
 		h.End = func(st State) {
 			s := st.(*c09State)
-			exits = append(exits, exitRec{fd.Body.Rbrace, "", s.sendsMin, s.sends, s.closedOK, s.nilArm})
+			exits = append(exits, exitRec{fd.Body.Rbrace, "", s.sendsMin, s.sends, s.closedOK, s.nilArm, s.mayNil})
 			if s.mayHold && !deferredUnlock(fd) {
 				leaks = append(leaks, fd.Body.Rbrace)
 			}
 		}
-		WalkFunc(h, fd.Body, &c09State{})
+		WalkFunc(h, c09NormalizeReturns(info, fd.Body), &c09State{})
 		return exits, ops, flagAccess
 	}
 
@@ -911,7 +1017,7 @@ func c09Run(r *Run) {
 			return true
 		})
 		for _, e := range exits {
-			if e.nilArm && e.result == "false" && e.sends == 0 {
+			if (e.nilArm || e.mayNil) && e.result == "false" && e.sends == 0 {
 				closedArmFalse = true
 			}
 		}
@@ -1010,6 +1116,11 @@ func c09Run(r *Run) {
 						return false
 					case *ast.IfStmt:
 						nilTest := uninitTest(x.Cond)
+						if u, ok := ast.Unparen(x.Cond).(*ast.UnaryExpr); ok && u.Op == token.NOT {
+							if id, ok := ast.Unparen(u.X).(*ast.Ident); ok && okUninit[info.Uses[id]] {
+								nilTest = true
+							}
+						}
 						visit(x.Body, inDrainDefault, inNilTest || nilTest)
 						if x.Else != nil {
 							visit(x.Else, inDrainDefault, inNilTest)
@@ -1192,4 +1303,123 @@ func isChanHelper(m map[*types.Func]int, f *types.Func) bool { _, ok := m[f]; re
 func f0(info *types.Info, c *ast.CallExpr) *types.Func {
 	f, _ := calleeOf(info, c).(*types.Func)
 	return f
+}
+
+// c09NormalizeReturns rewrites `return <bool expression with a call>` into
+// `if <expr> { return true }; return false`, so that the walker's condition machinery (short circuit,
+// refinement by the callee's exits) applies to results such as `return ok && ep.offer(v)`.
+func c09NormalizeReturns(info *types.Info, body *ast.BlockStmt) *ast.BlockStmt {
+	var stmts func(list []ast.Stmt) []ast.Stmt
+	var one func(s ast.Stmt) []ast.Stmt
+	block := func(b *ast.BlockStmt) *ast.BlockStmt {
+		if b == nil {
+			return nil
+		}
+		return &ast.BlockStmt{Lbrace: b.Lbrace, List: stmts(b.List), Rbrace: b.Rbrace}
+	}
+	one = func(s ast.Stmt) []ast.Stmt {
+		switch x := s.(type) {
+		case *ast.ReturnStmt:
+			if len(x.Results) != 1 {
+				return []ast.Stmt{s}
+			}
+			res := ast.Unparen(x.Results[0])
+			if id, ok := res.(*ast.Ident); ok && (id.Name == "true" || id.Name == "false") {
+				return []ast.Stmt{s}
+			}
+			t := info.TypeOf(res)
+			if t == nil {
+				return []ast.Stmt{s}
+			}
+			if b, ok := t.Underlying().(*types.Basic); !ok || b.Kind() != types.Bool {
+				return []ast.Stmt{s}
+			}
+			if _, isBin := res.(*ast.BinaryExpr); !isBin {
+				return []ast.Stmt{s} // a plain `return helper(…)` is expanded by the return hook
+			}
+			hasCall := false
+			ast.Inspect(res, func(n ast.Node) bool {
+				if _, ok := n.(*ast.CallExpr); ok {
+					hasCall = true
+				}
+				return true
+			})
+			if !hasCall {
+				return []ast.Stmt{s}
+			}
+			yes := &ast.ReturnStmt{Return: x.Return, Results: []ast.Expr{&ast.Ident{NamePos: x.Return, Name: "true"}}}
+			no := &ast.ReturnStmt{Return: x.Return, Results: []ast.Expr{&ast.Ident{NamePos: x.Return, Name: "false"}}}
+			return []ast.Stmt{&ast.IfStmt{If: x.Return, Cond: x.Results[0], Body: &ast.BlockStmt{Lbrace: x.Return, List: []ast.Stmt{yes}, Rbrace: x.Return}}, no}
+		case *ast.BlockStmt:
+			return []ast.Stmt{block(x)}
+		case *ast.IfStmt:
+			n := *x
+			n.Body = block(x.Body)
+			if x.Else != nil {
+				el := one(x.Else)
+				if len(el) == 1 {
+					n.Else = el[0]
+				} else {
+					n.Else = &ast.BlockStmt{List: el}
+				}
+			}
+			return []ast.Stmt{&n}
+		case *ast.ForStmt:
+			n := *x
+			n.Body = block(x.Body)
+			return []ast.Stmt{&n}
+		case *ast.RangeStmt:
+			n := *x
+			n.Body = block(x.Body)
+			return []ast.Stmt{&n}
+		case *ast.LabeledStmt:
+			n := *x
+			in := one(x.Stmt)
+			if len(in) == 1 {
+				n.Stmt = in[0]
+			} else {
+				n.Stmt = &ast.BlockStmt{List: in}
+			}
+			return []ast.Stmt{&n}
+		case *ast.SwitchStmt:
+			n := *x
+			nb := &ast.BlockStmt{Lbrace: x.Body.Lbrace, Rbrace: x.Body.Rbrace}
+			for _, c := range x.Body.List {
+				cc := *c.(*ast.CaseClause)
+				cc.Body = stmts(cc.Body)
+				nb.List = append(nb.List, &cc)
+			}
+			n.Body = nb
+			return []ast.Stmt{&n}
+		case *ast.TypeSwitchStmt:
+			n := *x
+			nb := &ast.BlockStmt{Lbrace: x.Body.Lbrace, Rbrace: x.Body.Rbrace}
+			for _, c := range x.Body.List {
+				cc := *c.(*ast.CaseClause)
+				cc.Body = stmts(cc.Body)
+				nb.List = append(nb.List, &cc)
+			}
+			n.Body = nb
+			return []ast.Stmt{&n}
+		case *ast.SelectStmt:
+			n := *x
+			nb := &ast.BlockStmt{Lbrace: x.Body.Lbrace, Rbrace: x.Body.Rbrace}
+			for _, c := range x.Body.List {
+				cc := *c.(*ast.CommClause)
+				cc.Body = stmts(cc.Body)
+				nb.List = append(nb.List, &cc)
+			}
+			n.Body = nb
+			return []ast.Stmt{&n}
+		}
+		return []ast.Stmt{s}
+	}
+	stmts = func(list []ast.Stmt) []ast.Stmt {
+		var out []ast.Stmt
+		for _, s := range list {
+			out = append(out, one(s)...)
+		}
+		return out
+	}
+	return block(body)
 }
